@@ -41,6 +41,9 @@ int rshell_execute(char *str, const struct rshell_command *cmdtable,
 
     argc = argvc_internal_split(str, argv, SSHELL_ARGCMAX);
 
+    if (argc == 0)
+        return 0;
+
     return rshell_execute_v(argc, argv, cmdtable, retptr, dropargs, output,
                             maxsize);
 }
